@@ -145,7 +145,7 @@ type Sched struct {
 	Stats     SchedStats
 	trace     []string // decision trace (task@site), for interleaving hashes and replay files
 	traceOn   bool
-	notes     func(name, detail string, n uint64, t *Task)
+	notes     func(name, detail string, n uint64, t *Task, gid uint64)
 	onStep    func()
 	start     time.Time
 	MaxSteps  int
@@ -319,7 +319,7 @@ func (s *Sched) noteHook(name, detail string, n uint64) {
 	s.mu.Lock()
 	t := s.byGID[gid]
 	s.mu.Unlock()
-	s.notes(name, detail, n, t)
+	s.notes(name, detail, n, t, gid)
 }
 
 // TaskDone marks a background goroutine as finished (called by nobody in rosmar; background
